@@ -298,7 +298,7 @@ def entry_key(e) -> str | None:
     return None
 
 
-def match_entries(entries, calls, t0, t1, unmapped=False):
+def match_entries(entries, calls, t0, t1, unmapped=False, extra_credits=None, fault_clock=None, hook_ranges=()):
     """Judge the entries of one journal activation against the calls with t0 < start, end <= t1.
 
     Reading of the statement: every completed call has exactly one entry of its kind on its object;
@@ -308,9 +308,15 @@ def match_entries(entries, calls, t0, t1, unmapped=False):
     completed call that ended before it started is already matched; match each entry to the
     available unmatched call of its kind that ends first.
 
+    ``extra_credits``: key -> number of entries of operations that raised because a *hook* of this
+    journal raised while the entry was being recorded (the client saw the operation raise; whether the
+    original ran depends on whether the wrapper records before or after it): tolerated like the entry of
+    any call that raised.  ``fault_clock`` / ``hook_ranges`` only refine the name of a missing-entry
+    problem (the call started after a hook of this journal had raised / was made by a hook).
+
     Returns (problems, stats); problems = list of (kind, key, text)."""
     problems = []
-    completed, credits = [], {}
+    completed, credits = [], dict(extra_credits or {})
     for c in calls:
         key, _, self_id, ts, te, done = c
         if ts <= t0 or te is None or te > t1:
@@ -319,13 +325,17 @@ def match_entries(entries, calls, t0, t1, unmapped=False):
         # accessor from the container: any object id matches (None)
         tid = None if key in CONTAINER_KEYS else self_id
         if done:
-            completed.append([key, tid, ts, te, False])
+            completed.append([key, tid, ts, te, False, any(a < ts and te <= b for a, b in hook_ranges)])
         else:
             credits[key] = credits.get(key, 0) + 1
     by_key: dict[str, list] = {}
     for c in completed:
         by_key.setdefault(c[0], []).append(c)
-    ends = [(c[3], i) for i, c in enumerate(completed)]
+    # A call made by a hook runs between the recording of an operation and (for a wrapper that records
+    # first) the operation's own original: for the client it lies *inside* that operation, whatever the
+    # intervals of the originals say.  Such calls need their entry like any other but do not constrain
+    # the position of other entries, and their own entry may stand anywhere.
+    ends = [(c[3], i) for i, c in enumerate(completed) if not c[5]]
     heapq.heapify(ends)
 
     def e_min():
@@ -350,7 +360,7 @@ def match_entries(entries, calls, t0, t1, unmapped=False):
         for c in by_key.get(key, ()):
             if c[4] or not (c[1] is None or c[1] == e.object_id):
                 continue
-            if c[2] < lim:
+            if c[5] or c[2] < lim:
                 if best is None or c[3] < best[3]:
                     best = c
             elif blocked is None:
@@ -370,7 +380,12 @@ def match_entries(entries, calls, t0, t1, unmapped=False):
                              f"{key} call on that object already has its entry"))
     for c in completed:
         if not c[4]:
-            problems.append(("missing-entry", c[0], f"a completed {c[0]} call (clock {c[2]}..{c[3]}) has no entry"))
+            kind, where = "missing-entry", ""
+            if c[5]:
+                kind, where = "missing-entry-of-call-made-by-hook", " (the call was made by a hook of a journal)"
+            elif fault_clock is not None and c[2] > fault_clock:
+                kind, where = "missing-entry-after-hook-raised", " (it started after a hook of this journal had raised once)"
+            problems.append((kind, c[0], f"a completed {c[0]} call (clock {c[2]}..{c[3]}) has no entry{where}"))
     stats = {"completed": len(completed), "matched": matched, "tolerated": tolerated,
              "report_only_entries_of_unmapped_operations": unexplained,
              "raised": sum(1 for c in calls if c[3] > t0 and c[4] is not None and c[4] <= t1 and not c[5])}
@@ -457,6 +472,88 @@ CLIENT_CALLS = {
 }
 
 
+# History items after which the caller can "handle the hook's exception and repeat the call" without the
+# repetition being visible in the IR: one public instrumented call on an existing object whose second
+# application leaves the state of the first (so the comparison with the plain run does not depend on
+# whether a wrapper records before or after calling the original).  v_const is left out only because
+# the world builds the tensor (an instrumented constructor) while *forming* the call.
+FAULTABLE = frozenset(CLIENT_CALLS) - {"v_const"}
+MAX_HOOKS = 4
+
+
+class _HookFault(Exception):
+    """Raised by the harness's fault hook from inside ``Journal.record``."""
+
+
+class HookShared:
+    """State shared by the hooks of one run."""
+
+    def __init__(self, log):
+        self.log = log
+        self.armed_jid = None     # id of the journal whose fault hook raises at its next top-level notification
+        self.fired = None         # (journal id, table key of the entry, clock)
+        self.touch_busy = 0
+        self.touches = 0
+        self.touch_ranges: list = []
+        self.notified = 0
+
+    def call_in_flight(self) -> bool:
+        return any(self.log.open.values())
+
+
+class ObserveHook:
+    """Notes which entries it was told about (ids only: the journal keeps the entries alive)."""
+
+    def __init__(self, shared, journal):
+        self.shared = shared
+        self.seen: set = set()
+        self.checked = len(journal.entries)
+
+    def __call__(self, entry):
+        self.shared.notified += 1
+        self.seen.add(id(entry))
+
+
+class FaultHook:
+    """Raises once when armed - but never in the middle of an IR call: not while an original instrumented
+    function is running (a nested notification) and not while another hook is performing IR calls."""
+
+    def __init__(self, shared, journal):
+        self.shared, self.jid = shared, id(journal)
+
+    def __call__(self, entry):
+        s = self.shared
+        if s.armed_jid != self.jid or s.touch_busy or s.call_in_flight():
+            return
+        s.armed_jid = None
+        s.fired = (self.jid, entry_key(entry), s.log.clock)
+        raise _HookFault("the hook rejects this operation")
+
+
+class TouchHook:
+    """A hook that uses the IR itself (on an object of its own), guarded against its own notifications."""
+
+    def __init__(self, shared, journal):
+        self.shared = shared
+
+    def __call__(self, entry):
+        s = self.shared
+        if s.touch_busy:
+            return
+        s.touch_busy += 1
+        c0 = s.log.clock
+        try:
+            v = ir.Value(name="hook_scratch")
+            v.name = "hook_scratch_seen"
+            s.touches += 1
+        finally:
+            s.touch_busy -= 1
+            s.touch_ranges.append((c0, s.log.clock))
+
+
+HOOK_CLASSES = {"observe": ObserveHook, "fault": FaultHook, "touch": TouchHook}
+
+
 class Runner:
     """Executes a marked history on a world.  ``journaled=False`` ignores the markers (plain run)."""
 
@@ -473,6 +570,35 @@ class Runner:
         self.armed = 0
         self.closed: list = []       # (journal, number of entries when it was left)
         self.active: list = []
+        self.shared = HookShared(calllog)
+        self.hooks: dict = {}        # id(journal) -> hooks added through add_hook, in order
+        self.fault_next = False
+        self.faults: dict = {}       # id(journal) -> [(table key of the entry, clock)] of the current activation
+        self.first_fault: dict = {}  # id(journal) -> clock of the first hook fault ever
+
+    # -- hooks
+    def add_hook(self, j, kind):
+        hs = self.hooks.setdefault(id(j), [])
+        if len(hs) >= MAX_HOOKS and not (kind == "fault" and not any(isinstance(h, FaultHook) for h in hs)):
+            return None
+        h = HOOK_CLASSES[kind](self.shared, j)
+        j.add_hook(h)
+        hs.append(h)
+        self.obs.add("hooks_added:" + kind)
+        return h
+
+    def account_observers(self, j, n_faults):
+        """report only (the statement does not speak of hooks): entries an attached hook was not told about,
+        beyond those whose notification round was cut short by a hook that raised."""
+        entries = list(j.entries)
+        for h in self.hooks.get(id(j), ()):
+            if isinstance(h, ObserveHook):
+                part = entries[h.checked:]
+                unseen = sum(1 for e in part if id(e) not in h.seen)
+                h.checked = len(entries)
+                self.obs.add("hook_notifications_checked", len(part))
+                if unseen > n_faults:
+                    self.obs.add("report_only_hook_not_notified_of_entry", unseen - n_faults)
 
     # -- one history item
     def step(self, i):
@@ -489,16 +615,48 @@ class Runner:
                 n0 = len(self.active[-1].entries)
             except Exception:  # noqa: BLE001 - empty pool: the call cannot be formed
                 expect = None
+        sh = self.shared
+        arm, self.fault_next = self.fault_next, False
+        if arm and self.journaled and self.active and op[0] in FAULTABLE:
+            j = self.active[-1]
+            if not any(isinstance(h, FaultHook) for h in self.hooks.get(id(j), ())):
+                self.add_hook(j, "fault")
+            sh.armed_jid, sh.fired = id(j), None
+        else:
+            arm = False
         res = self.w.apply(op)
+        if arm:
+            sh.armed_jid = None
+            if sh.fired is None:
+                self.obs.add("hook_fault_armed_but_no_top_level_notification")
+            else:
+                # The hook's exception surfaced from the IR operation being recorded; the caller handles it
+                # and repeats the call (FAULTABLE: repeating is not visible in the IR).
+                jid, key, clock = sh.fired
+                sh.fired = None
+                self.obs.add("hook_faults_injected")
+                self.obs.add(f"hook_fault_at_depth_{len(self.active)}")
+                if not isinstance(res.exc, _HookFault):
+                    self.obs.add("report_only_hook_exception_did_not_surface")
+                self.faults.setdefault(jid, []).append((key, clock))
+                self.first_fault.setdefault(jid, clock)
+                res = None
+                if expect is not None:
+                    n0 = len(self.active[-1].entries)
+                res = self.w.apply(op)
+                if isinstance(res.exc, _HookFault):
+                    raise RuntimeError("the fault hook fired although it was not armed")
         if expect is not None and res.exc is None and not res.skipped:
             self.obs.add("client_calls_checked")
             new = list(self.active[-1].entries)[n0:]
             if not any(e.operation == expect[0] and e.object_id == id(target) for e in new):
+                after = "-after-hook-raised" if id(self.active[-1]) in self.first_fault else ""
                 self.obs.problems.append((
-                    "entries:client-call-without-entry", expect[0],
+                    "entries:client-call-without-entry" + after, expect[0],
                     f"step {i} {op}: the call returned inside a journal (depth {len(self.active)}) but the innermost journal "
                     f"recorded no '{expect[0]}' entry for the object ({len(new)} new entries: "
-                    f"{[e.operation for e in new][:6]})"))
+                    f"{[e.operation for e in new][:6]})"
+                    + ("; a hook of this journal had raised once before (handled by the caller)" if after else "")))
         self.last_exc = res.exc
         self.obs.results.append(norm_result(self.w, res))
         if i in self.checkpoint_at:
@@ -519,7 +677,20 @@ class Runner:
                                  f"get_current_journal() after leaving ({how}, depth {depth}) is not the journal that was current before entering"))
         entries = list(j.entries)[start_len:]
         t1 = self.log.clock
-        problems, stats = match_entries(entries, self.log.calls, t0, t1, self.unmapped)
+        faults = self.faults.pop(id(j), [])
+        credits: dict = {}
+        for key, _ in faults:
+            if key is not None:
+                credits[key] = credits.get(key, 0) + 1
+        problems, stats = match_entries(entries, self.log.calls, t0, t1, self.unmapped, extra_credits=credits,
+                                        fault_clock=self.first_fault.get(id(j)), hook_ranges=self.shared.touch_ranges)
+        if self.hooks.get(id(j)):
+            obs.add("journal_exits_with_hooks")
+            if faults:
+                obs.add("journal_exits_after_hook_fault")
+                obs.add("calls_completed_after_hook_fault",
+                        sum(1 for c in self.log.calls if c[5] and c[3] > faults[0][1] and c[4] is not None and c[4] <= t1))
+            self.account_observers(j, len(faults))
         if depth == 1:
             for c in self.log.calls:
                 if c[3] > t0 and c[4] is not None and c[4] <= t1:
@@ -542,6 +713,7 @@ class Runner:
             it = items[i]
             if it[0] in ("J_enter", "J_exit"):
                 self.armed = 0
+                self.fault_next = False
             if it[0] == "J_enter" and self.journaled:
                 self.obs.results.append(("marker",))
                 if depth >= MAX_DEPTH:
@@ -614,6 +786,21 @@ class Runner:
                 self.last_exc = None
                 self.pending = [exc, levels, i + 1]
                 raise exc
+            elif it[0] in ("J_hook", "J_hook_clear", "J_fault"):
+                self.obs.results.append(("marker",))
+                if self.journaled and self.active:
+                    j = self.active[-1]
+                    if it[0] == "J_hook":
+                        self.add_hook(j, it[1])
+                    elif it[0] == "J_hook_clear":
+                        self.account_observers(j, len(self.faults.get(id(j), ())))
+                        j.clear_hooks()
+                        self.hooks[id(j)] = []
+                        self.obs.add("hooks_cleared")
+                    else:
+                        self.fault_next = True
+                i += 1
+                continue
             else:
                 if it[0] in ("J_enter", "J_exit"):
                     self.obs.results.append(("marker",))
@@ -632,6 +819,11 @@ class Runner:
     def run(self):
         self.run_block(0, 0)
         self.last_exc = None
+        self.obs.add("hook_touch_rounds", self.shared.touches)
+        self.obs.add("hook_notifications", self.shared.notified)
+        for j in self.obs.journals:  # the hooks are the harness's: detach them before the journals are judged for liveness
+            j.clear_hooks()
+        self.hooks = {}
         # a journal that was left must not record any more
         for j, n_at_exit in self.closed:
             if len(j.entries) != n_at_exit:
